@@ -172,6 +172,11 @@ var errInjected = errors.New("injected transport error")
 
 // checkStream applies the whole C05 oracle to one stream under several feedings.
 func checkStream(t *rapid.T, sc *streamCase, rec *evid.Rec) error {
+	return checkStreamSizes(t, sc, rec, nil, -1)
+}
+
+// checkStreamSizes is checkStream with explicit chunk sizes and fault offset for callers without a rapid.T (fuzzing).
+func checkStreamSizes(t *rapid.T, sc *streamCase, rec *evid.Rec, fixedSizes []int, fixedFault int) error {
 	data := sc.data
 	// (i) whole
 	whole, herr := feed(sc, data, nil, -1, nil)
@@ -201,8 +206,12 @@ func checkStream(t *rapid.T, sc *streamCase, rec *evid.Rec) error {
 	}
 	// (iii) generated chunk sizes
 	var sizes []int
-	if t != nil {
-		sizes = rapid.SliceOfN(rapid.OneOf(rapid.IntRange(1, 16), rapid.IntRange(1, 600)), 0, 40).Draw(t, "chunks")
+	if t != nil || fixedSizes != nil {
+		if t != nil {
+			sizes = rapid.SliceOfN(rapid.OneOf(rapid.IntRange(1, 16), rapid.IntRange(1, 600)), 0, 40).Draw(t, "chunks")
+		} else {
+			sizes = fixedSizes
+		}
 		if len(sizes) == 0 {
 			sizes = []int{1}
 		}
@@ -235,8 +244,11 @@ func checkStream(t *rapid.T, sc *streamCase, rec *evid.Rec) error {
 		}
 	}
 	// (iv) transport fault at offset k
-	if t != nil && len(data) > 0 {
-		k := rapid.IntRange(0, len(data)-1).Draw(t, "fault_at")
+	if (t != nil || fixedFault >= 0) && len(data) > 0 {
+		k := fixedFault % len(data)
+		if t != nil {
+			k = rapid.IntRange(0, len(data)-1).Draw(t, "fault_at")
+		}
 		ft, herr := feed(sc, data, sizes, k, errInjected)
 		if herr != nil {
 			return fmt.Errorf("fault at %d: %v", k, herr)
@@ -247,7 +259,9 @@ func checkStream(t *rapid.T, sc *streamCase, rec *evid.Rec) error {
 		if _, err := judge(data[:k], ft.res, sc.di, sc.key); err != nil {
 			return fmt.Errorf("fault at %d: %v", k, err)
 		}
-		rec.Class("fault-injected", 1)
+		if rec != nil {
+			rec.Class("fault-injected", 1)
+		}
 	}
 	// classification
 	if rec != nil {
@@ -306,7 +320,7 @@ func TestC05Streams(t *testing.T) {
 	rec := evid.New(t, "C05", "streams from a grammar (valid raw/dialect/signed frames, truncated frames, damaged checksum/signature/flags, junk with and without markers, glued frames) fed whole, byte-wise, in generated chunks and with a transport error injected at a generated offset; oracles: no panic, progress, consumed-span exactness against the reference, identical (kind,span) sequences across feedings, completeness on clean streams, the transport's own error surfaces; non-trivial = a delivered frame straddles a read boundary, or markers inside noise, or a truncated frame; distinct by hash of (stream, chunking)")
 	rec.Require("frame-straddles-read-boundary", "seg-markerjunk", "seg-truncated", "clean-stream", "keyed", "dialect", "fault-injected", "seg-badcrc", "seg-badsig")
 	dpool := pool(t)
-	evid.Check(t, rec, evid.N(12000, 60000), func(t *rapid.T) {
+	evid.Check(t, rec, evid.N(40000, 150000), func(t *rapid.T) {
 		sc := drawStream(t, dpool)
 		if err := checkStream(t, sc, rec); err != nil {
 			var ks []string
